@@ -334,8 +334,8 @@ pub fn spec_run(shape: &Shape, api: Api, mut decide: impl FnMut(usize, Ph, usize
                     Tnr::C => i += 1,
                     Tnr::J => {
                         i += 1;
-                        if i < ev.len() && ev[i].0 == Ph::Up {
-                            i += 1; // PLANTED DEFECT (demo): bypass only the direct parent
+                        while i < ev.len() && ev[i].0 == Ph::Up {
+                            i += 1;
                         }
                         if i >= ev.len() {
                             out.ended_in_jump = true;
